@@ -194,10 +194,18 @@ pub fn run(ctx: &mut RunCtx) {
                 }
             };
             obs.sub_eval(None);
-            // align the ids of new nodes
+            // align the ids of new nodes; a node the statement created and deleted again has no
+            // counterpart in the database (its internal id is not knowable), so it is neither
+            // aligned nor looked up as a tombstone
+            for i in &stats.created_nodes {
+                if !model.nodes.contains_key(i) {
+                    model.dead.remove(i);
+                    obs.class("created-and-deleted-in-one-statement");
+                }
+            }
             let d = model::dump_db(&built.db, &uni, &model.dead)?;
             let new_db: Vec<Iid> = d.nodes.keys().copied().filter(|i| *i >= before.next_iid).collect();
-            let new_model = stats.created_nodes.clone();
+            let new_model: Vec<Iid> = stats.created_nodes.iter().copied().filter(|i| model.nodes.contains_key(i)).collect();
             if new_db.len() != new_model.len() {
                 fail!(format!("update:new-node-count:{k}"), "statement {si} created {} nodes in the engine, {} in the reference\n{}", new_db.len(), new_model.len(), ctx_txt(&log));
             }
@@ -256,7 +264,7 @@ pub fn run(ctx: &mut RunCtx) {
                 let f = first_diff.unwrap();
                 fail!(format!("update:{}:{k}", f.signature), "after statement {si} the database differs from the reference: {}\n{}\n  model before: nodes {:?}\n                rels {:?} props {:?}", f.message, ctx_txt(&log), before.nodes, before.edges, before.edge_props);
             };
-            m2.next_iid = d.nodes.keys().max().map(|x| x + 1).unwrap_or(0).max(before.next_iid + new_db.len() as u32);
+            m2.next_iid = d.nodes.keys().max().map(|x| x + 1).unwrap_or(0).max(before.next_iid + stats.created_nodes.len() as u32);
             model = m2;
             // change-count relations
             let changed = !before.same_graph(&model);
